@@ -16,6 +16,6 @@ TReset == /\ IsEvent("reset")
           /\ shareId' = <<>> /\ userId' = Rec[l].uid
           /\ out' = <<>> /\ cbs' = <<>> /\ inres' = "none" /\ obs' = ObsInit
 
-TNext == TReset \/ TSrv \/ TInput \/ TShutdown
+TNext == TReset \/ TSrv \/ THostile \/ TInput \/ TShutdown
 TSpec == TInit /\ [][TNext]_tvars
 =============================================================================
